@@ -60,6 +60,9 @@ func main() {
 	}
 
 	r := vlib.Start("C17", "exploration")
+	if r.ReplayArg != "" {
+		replayFile(r.ReplayArg)
+	}
 	thorough := r.Thorough()
 	r.Rule("grammar: every derivation with sections<=2(3 thorough), items<=2, params<=2, '&&' chains<=2(3), value lists<=2(3), nesting<=3, all literal styles (bare ID, bare NON_ID, '..', \"..\"), with/without key, '!', annotations, outbound bare/function — full per-item product, pairs against 10 representative neighbours — each spelled compactly, fully spaced, and with 8 kinds of white space/comment inserted at every token boundary one at a time; nearmiss: every single-token delete/duplicate/adjacent-swap of " + strconv.Itoa(len(nearMissSeeds)) + " valid seeds on visible and on all tokens; bytes: every string of length<=4(5) over 21 symbols in 4 syntactic contexts; typed: config.New structure matrix + rule function x key x value matrix + programs of 1022..1026 and 2048 match sets; include: all 4096 ordered include graphs on 3 files + path/permission matrix. A case is one distinct text (or file tree); distinct_nontrivial counts distinct cases.")
 	legs := map[string]bool{}
